@@ -217,6 +217,10 @@ def mutation_cmds(rng, v, h):
     return None
 
 
+def a_null(bcmd):
+    return [t for t in bcmd.split()[2:] if t == "n"]
+
+
 def history_cmds(rng, toks, h):
     """commands that grow and then shrink containers of the tree in handle h back to the same VALUE (equality and copies must not depend on how a tree
     came to hold its value: table sizes, array capacities, tombstones)"""
@@ -339,14 +343,43 @@ def shard_fn(shard, nshards, seed, tier, exe, npairs, ncopies):
         cmds = ["B 0 " + " ".join(a), "NAV 0 5 " + " ".join(p), "SS 5 0 4", "S 0 0", "DCOPY 0 1 0", "S 1 0", "PUT 1", "S 0 0", "PUT 0"]
         cases.append((cid, cmds))
         udmeta[cid] = True
+    # a shallow-copy callback that gives up on its k-th node (returns -1 without touching *dst): the copy fails, what was built so far is released exactly once,
+    # the source is untouched
+    for j in range(max(8, ncopies // nshards // 40)):
+        a = tree(0.0)
+        if toks_to_value(a) is None:
+            continue
+        nn = sum(1 for t in a if t[0] in "iudDsntf[{")
+        cid = "%d.f%d" % (shard, j)
+        k = rng.randrange(1, nn + 2)
+        cmds = ["B 0 " + " ".join(a), "D 0", "DCOPY 0 1 2 5000 %d" % k, "D 0", "PUT 1", "PUT 0"]
+        cases.append((cid, cmds))
+        udmeta[cid] = ("failcopy", k, nn)
     results, crashes = core.run_script(exe, cases, tag="c09", env=core.ambient_env(sh, shard))
     cmdmap = dict(cases)
     for cr in crashes:
         kind_, frame = cr.summary()
         i = min(len(cr.partial), len(cmdmap[cr.cid]) - 1)
-        sh.violation("C09/%s/%s/%s" % (kind_, frame, meta[cr.cid][0]), "memory error (%s) at command #%d %s" % (kind_, i, cmdmap[cr.cid][i][:80]),
+        sh.violation("C09/%s/%s/%s" % (kind_, frame, (meta[cr.cid][0] if cr.cid in meta else "copy-family")), "memory error (%s) at command #%d %s" % (kind_, i, cmdmap[cr.cid][i][:80]),
                      {"driver": "jcdrv", "variant": "asan", "script": cmdmap[cr.cid], "stderr": cr.stderr[-2500:]})
     for cid, lines in results.items():
+        if cid in udmeta and udmeta[cid] is not True:
+            cmds = cmdmap[cid]
+            rep = {"driver": "jcdrv", "variant": "asan", "script": cmds}
+            _k, kk, nn = udmeta[cid]
+            sh.evaluations += 3
+            rc = int(lines[2].split()[1])
+            key = None
+            if lines[3] != lines[1]:
+                key, what = "failed-copy-changed-the-source", "a deep copy whose callback gave up changed the source tree"
+            elif lines[-1].split()[1] != "live=0":
+                key, what = "leak", "blocks left after a failed deep copy: " + lines[-1]
+            if rc != 0:
+                sh.count("copies.callback_gave_up")
+            if key:
+                sh.violation("C09/failing-copy-callback/" + key, what, rep)
+            sh.nontrivial("\n".join(cmds[:3]))
+            continue
         if cid in udmeta:
             cmds = cmdmap[cid]
             rep = {"driver": "jcdrv", "variant": "asan", "script": cmds}
